@@ -418,8 +418,11 @@ def rule_G(ctx):
         ncol, nrow = r.fields.get('ncol'), r.fields.get('nrow')
         xmin, xmax, ymin, ymax = ext
         rx, ry = res
-        xs_ = sorted({xmin, xmax} | {xmin + k * rx for k in range(1, 6) if xmin + k * rx < xmax} | {xmin + (k + 0.5) * rx for k in range(6) if xmin + (k + 0.5) * rx < xmax} | {xmax - 0.025 * rx})
-        ys_ = sorted({ymin, ymax} | {ymin + k * ry for k in range(1, 6) if ymin + k * ry < ymax} | {ymin + (k + 0.5) * ry for k in range(6) if ymin + (k + 0.5) * ry < ymax} | {ymax - 0.025 * ry})
+        # (probes a hair inside a cell, next to each border: 1e-10 of a cell away from it)
+        hair_x = {v_ for v_ in (xmin + k * rx + d_ * rx for k in range(1, 6) if xmin + k * rx < xmax for d_ in (1e-10, -1e-10)) if xmin < v_ < xmax}
+        hair_y = {v_ for v_ in (ymin + k * ry + d_ * ry for k in range(1, 6) if ymin + k * ry < ymax for d_ in (1e-10, -1e-10)) if ymin < v_ < ymax}
+        xs_ = sorted(hair_x | {xmin, xmax} | {xmin + k * rx for k in range(1, 6) if xmin + k * rx < xmax} | {xmin + (k + 0.5) * rx for k in range(6) if xmin + (k + 0.5) * rx < xmax} | {xmax - 0.025 * rx})
+        ys_ = sorted(hair_y | {ymin, ymax} | {ymin + k * ry for k in range(1, 6) if ymin + k * ry < ymax} | {ymin + (k + 0.5) * ry for k in range(6) if ymin + (k + 0.5) * ry < ymax} | {ymax - 0.025 * ry})
         for x in xs_:
             for y in ys_:
                 n_cases += 1
@@ -437,7 +440,8 @@ def rule_G(ctx):
                     why = 'the cell is inside the grid (%d columns x %d rows)' % (ncol, nrow)
                 if ok:
                     k = nrow - 1 - row
-                    ok = xmin + col * rx - 1e-9 <= x <= xmin + (col + 1) * rx + 1e-9 and ymin + k * ry - 1e-9 <= y <= ymin + (k + 1) * ry + 1e-9
+                    sx_, sy_ = 1e-12 * max(abs(xmin), abs(xmax), rx), 1e-12 * max(abs(ymin), abs(ymax), ry)       # (rounding of the cell borders themselves)
+                    ok = xmin + col * rx - sx_ <= x <= xmin + (col + 1) * rx + sx_ and ymin + k * ry - sy_ <= y <= ymin + (k + 1) * ry + sy_
                     why = 'the footprint of the cell contains the point (rows are counted from the top, the bottom row starts at ymin)'
                 if not ok and bad is None:
                     bad = {'grid': gname, 'extent (xmin, xmax, ymin, ymax)': list(ext), 'cell size': list(res), 'point': [x, y], 'cell returned (column, row)': list(cell) if isinstance(cell, tuple) else cell, 'violated': why}
@@ -448,10 +452,18 @@ def rule_G(ctx):
     Tc = absint.classref(ctx, 'tracklib.core.track.Track', fn)
     TCc = absint.classref(ctx, 'tracklib.core.track_collection.TrackCollection', fn)
 
+    tr_count = [0]
+
     def Tr(uid, pts, feats):
         t_ = Tc([absint.real_obs(ctx, fn, P(*p_)) for p_ in pts], uid, 't')
+        tr_count[0] += 1
+        # every other track carries another feature created FIRST: the summarised feature is not at the same rank in all tracks
+        if tr_count[0] % 2 == 0:
+            t_.call('createAnalyticalFeature', 'other', [-777.0] * len(pts))
         for nm_, vals_ in feats.items():
             t_.call('createAnalyticalFeature', nm_, list(vals_))
+        if tr_count[0] % 2 == 1:
+            t_.call('createAnalyticalFeature', 'other', [-777.0] * len(pts))
         return t_
 
     def Coll(tracks):
